@@ -32,8 +32,15 @@ PREFIXES = ["", "", "", "(", "rtr-", "01", "\"", "[", "10.", "_", "é", "x", "<"
 SUFFIXES = ["", "", "", ")", "-gw", "02", "\"", "]", ".1", "_", ";", ":", ",", "z", "s"]
 
 
+KW = re.compile(r"passw|secret|key|communit|md5|sha|snmp|auth|encrypt|crypt|hostname|tacacs|radius|neighbor|syscon|wpa|ldap|vpdn|wlccp|trap|isakmp|digest|l2tp|ppp|standby|username")
+KW_WORDS = ["password", "passwd", "secret", "key", "community", "md5", "sha", "snmp", "authentication", "encrypted", "hostname", "pre-shared-key",
+            "key-string", "message-digest-key", "simple-password", "ssh-rsa", "ssh-dsa", "trap-group", "pksecret", "priv", "auth", "aes", "des", "3des"]
+
+
 def ok_word(w):
     lw = w.lower()
+    if KW.search(lw) or any(lw in k for k in KW_WORDS):
+        return False  # would turn plain lines into secret lines when the secret stage is on
     return (len(lw) >= 2 and lw[0] in NONHEX and lw[-1] in NONHEX and not re.search(r"[0-9a-f]{6}", lw)
             and not re.search(r"\s", lw) and "," not in lw)
 
@@ -57,11 +64,11 @@ def casevar(rng, w):
 
 def cases(ctx):
     rng = ctx.rng
-    for i in range(ctx.per_shard(ctx.pick(400, 30000))):
+    for i in range(ctx.per_shard(ctx.pick(2000, 60000))):
         yield {"kind": "words", "wseed": rng.getrandbits(32), "salt": rng.choice(["saltForTest", "", "x", "ß", "0"]),
                "mode": rng.choice(["class", "file", "file+pwd"]),
                "children": 0}
-    for i in range(ctx.per_shard(ctx.pick(8, 400))):
+    for i in range(ctx.per_shard(ctx.pick(12, 600))):
         yield {"kind": "words", "wseed": rng.getrandbits(32), "salt": rng.choice(["saltForTest", "x", "w1"]),
                "mode": "file", "children": ctx.pick(4, 8), "force_overlap": True}
 
@@ -119,7 +126,10 @@ def build(case):
         return sorted(occ)
 
     # lines
-    res_conf = sorted(x for x in builtin if any(w in x for w in lwords) and not re.search(r"\s", x))
+    # reserved words that are keywords of secret line forms would turn a plain line into a secret line
+    # when the secret stage is on: keep them out of the word workload (C07-C09 own those forms)
+    kw = KW
+    res_conf = sorted(x for x in builtin if any(w in x for w in lwords) and not re.search(r"\s", x) and not kw.search(x))
     lines = []
     for _ in range(rng.randint(2, 8)):
         toks = []
@@ -138,6 +148,10 @@ def build(case):
                 toks.append(["reserved", rng.choice(user_res)])
             elif r < 0.63 and (res_conf or user_res):
                 toks.append(["reserved-othercase", casevar(rng, rng.choice(res_conf + user_res))])
+            elif r < 0.70 and (res_conf or user_res):
+                # a reserved word wrapped in punctuation is NOT "exactly a reserved word": re-labelled below
+                toks.append(["planted", rng.choice(["\"", "'", "{", "[", "(", ""]) + rng.choice(res_conf + user_res)
+                             + rng.choice(["\"", "\";", "}", "]", ";", ",", ")"])])
             else:
                 toks.append(["benign", rng.choice(L.BENIGN)])
         # classify truthfully
